@@ -1,6 +1,7 @@
 //! Generated programs: every program of shape [[a],[b]] or [[a,b],[c]] over the operation alphabet,
 //! all universal oracles armed (C01 exclusivity, C02 order, C03 once/quiet, C04 sync, C07/C08 results,
-//! C09 try_sync, C17 census).  Encoded in the cfg as a, b, c (c = -1: two single-op threads).
+//! C09 try_sync, C17 census).  Encoded in the cfg as a, b, c (c = -1: two single-op threads); with `t`=3 / `t`=4 the
+//! shape is [[a],[b],[c]] / [[a],[b],[c],[d]] (three or four caller threads with one operation each).
 use crate::h::*;
 use vsched::rt;
 
@@ -79,7 +80,9 @@ fn prog(cfg: &Cfg) {
     let w = World::new();
     w.prelude(cfg);
     let (o, x) = if raw { (w.raw(), w.raw()) } else { (w.desync_obj(), w.desync_obj()) };
-    let gates = [Gate::new(), Gate::new(), Gate::new()];
+    let gates = [Gate::new(), Gate::new(), Gate::new(), Gate::new()];
+    let nthreads = cfg.opt("t", 2);
+    let d = cfg.opt("d", -1);
     // `busy` pool threads are pinned by blocking jobs on other objects until the environment releases them
     let busy = cfg.opt("busy", 0);
     let mut pins = vec![];
@@ -93,16 +96,25 @@ fn prog(cfg: &Cfg) {
         let (w, o, x, g0, g1) = (w.clone(), o.clone(), x.clone(), gates[0].clone(), gates[1].clone());
         spawn(move || {
             run_op(&w, &o, &x, a, "t1a", &g0);
-            if c >= 0 {
+            if c >= 0 && nthreads == 2 {
                 run_op(&w, &o, &x, b, "t1b", &g1);
             }
         })
     };
     let t2 = {
         let (w, o, x, g2) = (w.clone(), o.clone(), x.clone(), gates[2].clone());
-        let code = if c >= 0 { c } else { b };
+        let code = if c >= 0 && nthreads == 2 { c } else { b };
         spawn(move || run_op(&w, &o, &x, code, "t2a", &g2))
     };
+    let mut more = vec![];
+    if nthreads >= 3 {
+        let (w, o, x, g) = (w.clone(), o.clone(), x.clone(), gates[1].clone());
+        more.push(spawn(move || run_op(&w, &o, &x, c, "t3a", &g)));
+    }
+    if nthreads >= 4 {
+        let (w, o, x, g) = (w.clone(), o.clone(), x.clone(), gates[3].clone());
+        more.push(spawn(move || run_op(&w, &o, &x, d, "t4a", &g)));
+    }
     // the environment: every external event eventually happens
     for g in &gates {
         g.open();
@@ -120,6 +132,9 @@ fn prog(cfg: &Cfg) {
     }
     join(t1, "t1");
     join(t2, "t2");
+    for (i, t) in more.into_iter().enumerate() {
+        join(t, &format!("t{}", i + 3));
+    }
     if cfg.opt("late", 0) == 1 {
         // the pinned pool threads only become free after every caller has returned
         rt::quiesce();
